@@ -25,7 +25,7 @@ META = {
     'level_text': ('Theorems C01_roundtrip_<T>: for ALL values of the domain (all NUL-free code point lists, all int64, '
                    'all valid y/m/d/H/M/S/us, every declared enum value, all byte lists) toPy(fetch(store(aff T, lit(toDb v)))) = v, '
                    'about the extracted format strings / literals / column types; C01_eq_query_finds; '
-                   'C01_accepted_readable (_partial proved, _full_FALSE from the DateTimeCol<-date witness); glue theorems '
+                   'C01_accepted_readable (_partial proved, _full_FALSE from the FloatCol<-2**53+1 witness); glue theorems '
                    'for Float/Decimal/DecimalString/Pickle/JSON/Uuid.'),
     'level_note': ('partial for Float, Decimal, Currency, DecimalString, Pickle, JSON, Uuid: repr(float), Decimal, pickle, json, '
                    'UUID are uninterpreted tokens; only the glue is proved, end-to-end behaviour is covered by the '
@@ -1002,14 +1002,15 @@ def run(ctx):
             if outs is not None:
                 ctx.compare('toPy on cell text: model strptime = validator to_python', {'type': T, 'text': s}, outs[k], r)
             k += 1
-    # ---- known-defect witnesses of the counter-theorems, replayed explicitly (setattr path, eager, cache on)
+    # ---- witnesses of the counter-theorem and of the repaired defects, replayed explicitly (setattr, eager, cache on)
     for T, v in WITNESSES:
         out, cls, obj = run_case(e, T, v, 'setattr', 'eager', True)
         oracle(ctx, e, T, v, 'setattr', 'eager', True, out, cls)
 
 
-WITNESSES = [('dateTime', D.date(2020, 1, 2)), ('dateTime', D.time(3, 4, 5, 6)), ('date', D.time(3, 4, 5, 6)),
-             ('time', D.date(2020, 1, 2))]
+WITNESSES = [('float', 2 ** 53 + 1),   # C01_accepted_readable_full_FALSE
+             ('dateTime', D.date(2020, 1, 2)), ('dateTime', D.time(3, 4, 5, 6)), ('date', D.time(3, 4, 5, 6)),
+             ('time', D.date(2020, 1, 2)), ('decimal', Dec('5.000'))]
 
 
 def replay(case):
